@@ -83,8 +83,9 @@ implement_decode_from_on_numeric_primitive_type! {f64, "Decodes a [`f64`] from 8
 // TODO this isn't great. It assumes `T` is a signed integer, and has a size less than `u32::MAX`. For sane users,
 // these will always be true. But if these assumptions don't hold, the 'min' and 'max' this reports will be wrong.
 fn varint_range_error<T>(value: i64) -> Error {
-    let size = core::mem::size_of::<T>() as u32;
-    let shift_count = i128::BITS - (size * 8);
+    // If `T` is larger than 128 bits, or is zero-sized, we can't compute bounds by shifting (and it isn't an integer).
+    let bits = (core::mem::size_of::<T>() as u32).saturating_mul(8).clamp(1, i128::BITS);
+    let shift_count = i128::BITS - bits;
     let error = InvalidDataErrorKind::OutOfRange {
         value: value as i128,
         min: i128::MIN >> shift_count,
@@ -98,8 +99,10 @@ fn varint_range_error<T>(value: i64) -> Error {
 // TODO this isn't great. It assumes `T` is an unsigned integer, and has a size less than `u32::MAX`. For sane users,
 // these will always be true. But if these assumptions don't hold, the 'min' and 'max' this reports will be wrong.
 fn varuint_range_error<T>(value: u64) -> Error {
-    let size = core::mem::size_of::<T>() as u32;
-    let shift_count = u128::BITS - (size * 8);
+    // If `T` is larger than 127 bits, or is zero-sized, we can't compute a bound by shifting (and it isn't an integer).
+    // The bound is reported as an `i128`, so it's capped at 127 bits.
+    let bits = (core::mem::size_of::<T>() as u32).saturating_mul(8).clamp(1, i128::BITS - 1);
+    let shift_count = u128::BITS - bits;
     let error = InvalidDataErrorKind::OutOfRange {
         value: value as i128,
         min: 0,
